@@ -636,6 +636,23 @@ pub fn run_c12(out: &mut Out, tier: &str, seed: u64) {
             }
         }
     }
+    // an escape at every offset of an item against the 32- and 64-byte blocks of the string skippers (a backslash as
+    // the last byte of a block carries into the next one), with enough input behind it for the vector loops: as
+    // array element, member value and member name, behind 0..3 blanks
+    {
+        let ks: Vec<usize> = if tier == "thorough" { (0..=200).collect() } else { (0..=70).chain(92..=98).chain(124..=130).collect() };
+        for &k in &ks {
+            for esc in ["\\\"", "\\\\", "\\\\\\\"", "\\n", "\\u00e9"] {
+                let item = format!("\"{}{esc}{}\"", "a".repeat(k), "b,]}\\\\ c".repeat(5));
+                for pad in 0..(if tier == "thorough" { 4 } else { 2 }) {
+                    let sp = " ".repeat(pad);
+                    out.count("escape-at-every-offset");
+                    iter_cases(out, format!("[{sp}{item},{item} , 1]").as_bytes(), true);
+                    iter_cases(out, format!("{{{sp}\"x\":{item},{item}:{item}}}").as_bytes(), true);
+                }
+            }
+        }
+    }
     let ndocs = if tier == "thorough" { 15000 } else { 2000 };
     let cfg = Cfg { max_depth: 3, max_width: 6, dup_free: false, ..Cfg::default() };
     for i in 0..ndocs {
